@@ -47,6 +47,10 @@ pub struct Cfg {
     pub sup_hold: bool,
     pub max_polls: u64,
     pub max_time_ms: u64,
+    /// 0-RTT: the clients hold a session ticket (the server's transport parameters of an earlier connection)
+    pub ticket: bool,
+    /// 0-RTT: the server accepts early data
+    pub early_accept: bool,
 }
 impl Default for Cfg {
     fn default() -> Self {
@@ -63,6 +67,8 @@ impl Default for Cfg {
             sup_hold: true,
             max_polls: 40_000,
             max_time_ms: 600_000,
+            ticket: false,
+            early_accept: false,
         }
     }
 }
@@ -416,6 +422,22 @@ async fn run_task(mut t: Task, ops: Vec<Value>) {
                     Ok(connecting) => {
                         t.hc_add(c, 1, 1);
                         let mut connecting = Some(connecting);
+                        if op.get("zero_rtt").and_then(|x| x.as_bool()).unwrap_or(false) {
+                            // Connecting::into_0rtt: usable at once when a ticket is held
+                            match connecting.take().unwrap().into_0rtt() {
+                                Ok(conn) => {
+                                    t.conn = Some(conn);
+                                    t.sync("connect_0rtt", json!({"res":"ok"}));
+                                    drop(ep);
+                                    t.ec_add(t.e, -1);
+                                    continue;
+                                }
+                                Err(cg) => {
+                                    t.sync("connect_0rtt", json!({"res":"err"}));
+                                    connecting = Some(cg);
+                                }
+                            }
+                        }
                         let r = await_op!(t, op, "connect", json!({}), connecting.take().expect("connect is not retried"));
                         match r {
                             Some(Ok(conn)) => {
@@ -567,6 +589,18 @@ async fn run_task(mut t: Task, ops: Vec<Value>) {
                     t.done(name, conn_err(&e));
                 } else if !gone {
                     let sid = s.as_ref().map(|x| u64::from(x.id())).or(r.as_ref().map(|x| u64::from(x.id()))).unwrap() as i64;
+                    // was the stream opened before the handshake completed (0-RTT)?  Connection::authenticated()
+                    // is ready at once iff the handshake is over; the probe future is dropped right away
+                    let early = if name.starts_with("open") && t.side == 1 && t.g.cfg.ticket {
+                        let over = std::future::poll_fn(|cx| {
+                            let mut f = std::pin::pin!(conn.authenticated());
+                            Poll::Ready(f.as_mut().poll(cx).is_ready())
+                        })
+                        .await;
+                        !over
+                    } else {
+                        false
+                    };
                     if let Some(x) = s {
                         t.hc_add(t.c, t.side, 1);
                         t.send = Some(SendH { s: x, sid, woff: 0, dirty: false });
@@ -575,7 +609,7 @@ async fn run_task(mut t: Task, ops: Vec<Value>) {
                         t.hc_add(t.c, t.side, 1);
                         t.recv = Some(RecvH { r: x, sid, roff: 0, dirty: false });
                     }
-                    t.done(name, json!({"res":"ok","sid":sid}));
+                    t.done(name, json!({"res":"ok","sid":sid,"n": early as i64}));
                 }
                 drop(conn);
                 t.hc_add(t.c, t.side, -1);
@@ -883,21 +917,57 @@ async fn run_task(mut t: Task, ops: Vec<Value>) {
 // ------------------------------------------------------------------------------------------------
 // one run
 
+type Tap = Arc<Mutex<Vec<Vec<u8>>>>;
+
 pub fn run_script(script: &Value, run: i64, verbose: bool) -> String {
+    let cfg: Cfg = script.get("cfg").cloned().map(|c| serde_json::from_value(c).unwrap_or_default()).unwrap_or_default();
+    let mut ticket = None;
+    if cfg.ticket {
+        // the "earlier connection" of the session ticket: a scratch handshake on a clean network with the same
+        // transport configuration; the server's encoded transport parameters are what the ticket remembers
+        let mut c2 = script.get("cfg").cloned().unwrap_or(json!({}));
+        c2["ticket"] = json!(false);
+        c2["clients"] = json!(1);
+        c2["net"] = json!({});
+        c2["sched"] = json!({"mode":"fifo"});
+        c2["sup_hold"] = json!(false);
+        let mini = json!({"seed": script.get("seed").cloned().unwrap_or(json!(1)), "cfg": c2, "tasks": [
+            {"ep":0,"root":true,"ops":[{"op":"accept_conn"}]},
+            {"ep":1,"root":true,"ops":[{"op":"connect"}]}]});
+        let tap: Tap = Arc::new(Mutex::new(Vec::new()));
+        let _ = run_inner(&mini, -1, false, Some(tap.clone()), None);
+        ticket = tap.lock().unwrap().last().cloned();
+    }
+    run_inner(script, run, verbose, None, ticket)
+}
+
+fn run_inner(script: &Value, run: i64, verbose: bool, tap: Option<Tap>, ticket_params: Option<Vec<u8>>) -> String {
     let cfg: Cfg = script.get("cfg").cloned().map(|c| serde_json::from_value(c).unwrap_or_default()).unwrap_or_default();
     let seed = script.get("seed").and_then(|x| x.as_u64()).unwrap_or(1);
     let sh = Sh::new(seed, cfg.net.clone(), verbose);
     sh.logv(json!({"ev":"Reset","run":run,"lossless":cfg.net.loss_pm == 0,"ordered":cfg.net.jitter_us == 0,"dup":cfg.net.dup_pm > 0,
                    "idle":cfg.idle_ms > 0,"maxuni":cfg.max_uni,"maxbi":cfg.max_bi,"window":cfg.stream_window,"sendwin":cfg.send_window.min(1_000_000_000),
-                   "clients":cfg.clients}));
+                   "clients":cfg.clients,"ticket":ticket_params.is_some(),"eaccept":cfg.early_accept}));
 
     let tcfg = Arc::new(transport(&cfg));
-    let mut scfg = ServerConfig::new(Arc::new(ToyServerConfig::new(seed)), Arc::new(ToyTokenKey(0x70ce)));
+    let mut scrypto = ToyServerConfig::new(seed);
+    scrypto.accept_early = cfg.early_accept;
+    if let Some(tap) = tap.clone() {
+        scrypto.param_hook = Some(Arc::new(move |b: Vec<u8>| {
+            tap.lock().unwrap().push(b.clone());
+            b
+        }));
+    }
+    let mut scfg = ServerConfig::new(Arc::new(scrypto), Arc::new(ToyTokenKey(0x70ce)));
     scfg.transport_config(tcfg.clone());
     scfg.time_source(Arc::new(SimClock(sh.clone())));
     let mut client_cfg = Vec::new();
     for i in 0..cfg.clients {
-        let mut c = ClientConfig::new(Arc::new(ToyClientConfig::new(seed ^ ((i as u64 + 1) << 32))));
+        let mut ccrypto = ToyClientConfig::new(seed ^ ((i as u64 + 1) << 32));
+        if let Some(p) = ticket_params.as_ref() {
+            ccrypto.ticket = Some(qv_core::toycrypto::Ticket { id: qv_core::toycrypto::mix(seed ^ 0x71c4e7 ^ i as u64), params: p.clone() });
+        }
+        let mut c = ClientConfig::new(Arc::new(ccrypto));
         c.transport_config(tcfg.clone());
         client_cfg.push(c);
     }
